@@ -35,6 +35,23 @@ theorem entriesOk_cons (c : MCls) (k : Str) (v : PyVal) (rest : List (Str × PyV
     entriesOk c ((k, v) :: rest) = (optFieldOk (fieldOf c k) v && entriesOk c rest) := by
   cases h : fieldOf c k <;> simp [entriesOk, h, optFieldOk]
 
+/-- marshmallow's `unknown = RAISE`: a dictionary holding a key that is not a declared field is refused -/
+theorem unknown_key_refused (c : MCls) {k : Str} {v : PyVal} (hk : fieldOf c k = none) :
+    ∀ {kvs : List (Str × PyVal)}, (k, v) ∈ kvs → accepts c (.dict kvs) = false := by
+  have key : ∀ {kvs : List (Str × PyVal)}, (k, v) ∈ kvs → entriesOk c kvs = false := by
+    intro kvs
+    induction kvs with
+    | nil => intro h; cases h
+    | cons e es ih =>
+      intro h
+      obtain ⟨k', v'⟩ := e
+      rw [entriesOk_cons]
+      rcases List.mem_cons.mp h with he | he
+      · cases he; simp [hk, optFieldOk]
+      · simp [ih he]
+  intro kvs h
+  simp [accepts, key h]
+
 theorem entriesOk_mkDict (c : MCls) : ∀ (fs : List (Key × PyVal)),
     entriesOk c (fs.map fun f => (f.1.str, f.2)) = fs.all fun e => entryOkK c e.1 e.2
   | [] => by simp [entriesOk]
